@@ -425,6 +425,206 @@ def _greedy_parts(cx):
     return outer, inner, icol, nbrs, groups, color, grp
 
 
+def _one_colour_sentinel(fn, cx, out):
+    """Second accepted idiom of the greedy loop: search the lowest free colour into a local (`chosen`, preset to
+    len(groups)), then commit once: `groups.append([icol])` if chosen == len(groups) else `groups[chosen].append(icol)`,
+    and `colors[icol] = chosen`.  Returns False when this idiom is not present."""
+    g = cx.g
+    outer = [st for st in fn.node.body if isinstance(st, ast.For) and isinstance(st.target, ast.Tuple)
+             and len(st.target.elts) == 2 and all(isinstance(e, ast.Name) for e in st.target.elts)]
+    if len(outer) != 1:
+        return False
+    outer = outer[0]
+    icol, nbrs = (e.id for e in outer.target.elts)
+    inner = [st for st in astx.walk_stmts(outer.body) if isinstance(st, ast.For) and isinstance(st.target, ast.Name)
+             and isinstance(st.iter, ast.Call) and astx.call_name(st.iter) == 'range' and len(st.iter.args) == 1]
+    if len(inner) != 1:
+        return False
+    inner = inner[0]
+    cvar = inner.target.id
+    hdr, ihdr = cx.node(outer), cx.node(inner)
+    body = set(g.body_nodes(outer))
+    body_entry = [m for m, lab in g.succ[hdr] if lab == 'true']
+
+    def is_store(n):
+        return n.kind == 'stmt' and isinstance(n.ast, ast.Assign) and len(n.ast.targets) == 1 and \
+            isinstance(n.ast.targets[0], ast.Subscript) and isinstance(n.ast.targets[0].value, ast.Name) and \
+            isinstance(n.ast.targets[0].slice, ast.Name) and n.ast.targets[0].slice.id == icol
+    stores = [n for n in g.where(is_store) if n in body]
+    carr = {n.ast.targets[0].value.id for n in stores}
+    if len(carr) != 1:
+        return False
+    carr = carr.pop()
+
+    def akind(n):
+        if n.kind != 'stmt' or not isinstance(n.ast, ast.Expr) or not isinstance(n.ast.value, ast.Call):
+            return None
+        c = n.ast.value
+        if astx.callee_attr(c) not in ('append', 'extend', 'insert', 'add') or not astx.mentions(c, icol):
+            return None
+        r = astx.receiver(c)
+        if astx.callee_attr(c) == 'append' and len(c.args) == 1:
+            a = c.args[0]
+            if isinstance(r, ast.Name) and isinstance(a, ast.List) and len(a.elts) == 1 and \
+                    isinstance(a.elts[0], ast.Name) and a.elts[0].id == icol:
+                return 'new'
+            if isinstance(r, ast.Subscript) and isinstance(r.value, ast.Name) and isinstance(r.slice, ast.Name) and \
+                    isinstance(a, ast.Name) and a.id == icol:
+                return 'indexed'
+        return 'other'
+    appends = [n for n in g.nodes if n in body and akind(n)]
+    news = [n for n in appends if akind(n) == 'new']
+    idxd = [n for n in appends if akind(n) == 'indexed']
+    if any(akind(n) == 'other' for n in appends) or len(news) != 1 or len(idxd) != 1:
+        return False
+    groups = astx.receiver(news[0].ast.value).id
+    if astx.receiver(idxd[0].ast.value).value.id != groups:
+        return False
+    chosen = astx.receiver(idxd[0].ast.value).slice.id
+
+    # ---- ONCE
+    for what, X, key in (('colour store', stores, 'once-colour'), ('group append', appends, 'once-group')):
+        w = g.path(body_entry, [hdr], avoid=X, labels=cfgm.noexc)
+        if not X or w is not None:
+            out.bad(fn, outer, f'an iteration can finish without a {what} of column {icol}: ' + g.fmt_path(w), key=key)
+            continue
+        if any(set(X) & g.reach(g.normal_succ(x), avoid=[hdr], labels=cfgm.noexc) for x in X):
+            out.bad(fn, X[0].ast, f'more than one {what} of column {icol} possible in one iteration (the column would '
+                    'belong to several colours)', key=key)
+            continue
+        out.ok(fn, X[0].ast, f'exactly one {what} per column on every path ({len(X)} site(s))')
+
+    # ---- definitions of the chosen colour: preset = len(groups), selection = loop variable under the free test
+    def is_len(e, at):
+        if isinstance(e, ast.Call) and astx.call_name(e) == 'len' and len(e.args) == 1 and \
+                isinstance(e.args[0], ast.Name) and e.args[0].id == groups:
+            return at
+        if isinstance(e, ast.Name):
+            v, d = cx.value(at, e.id)
+            if v is not None and d in body:
+                return is_len(v, d)
+        return None
+
+    def len_fresh(at, use):
+        """len(groups) evaluated at `at` is still the length at `use` (no append in between, same iteration)."""
+        between = g.reach(g.normal_succ(at), avoid=[hdr], labels=cfgm.noexc)
+        return use in between and not any(a in between and use in g.reach(g.normal_succ(a), avoid=[hdr], labels=cfgm.noexc)
+                                          for a in appends)
+    cdefs = [n for n in body if n.kind == 'stmt' and isinstance(n.ast, ast.Assign) and
+             any(isinstance(t, ast.Name) and t.id == chosen for t in n.ast.targets)]
+    presets = [n for n in cdefs if is_len(n.ast.value, n) is not None]
+    selects = [n for n in cdefs if isinstance(n.ast.value, ast.Name) and n.ast.value.id == cvar and
+               astx.in_body(n.ast, inner, 'body')]
+    if len(presets) != 1 or len(selects) != 1 or len(cdefs) != 2 or \
+            g.dominated_by(ihdr, presets, labels=cfgm.noexc) is not None:
+        out.unsure(fn, outer, f'definitions of the chosen colour {chosen} (preset to len({groups}), selection of a free '
+                   'colour) not recognised')
+        return True
+    rng_at = is_len(inner.iter.args[0], ihdr)
+    if rng_at is None or not len_fresh(rng_at, ihdr) and rng_at is not ihdr:
+        out.unsure(fn, inner, f'candidate colours are not range(len({groups}))')
+        return True
+
+    # ---- index agreement, existing group: groups[chosen].append(icol) with colors[icol] = chosen
+    a = idxd[0]
+    sv = [s for s in stores if isinstance(s.ast.value, ast.Name)]
+    if len(sv) != len(stores):
+        out.bad(fn, stores[0].ast, f'colour of the column is stored as `{astx.src(stores[0].ast.value)}`, not as the '
+                f'index {chosen} of the group it joins', key='colour-index-existing')
+    elif all(s.ast.value.id == chosen and cx.rd.defs(s, chosen) <= set(cdefs) and
+             cx.rd.defs(a, chosen) <= set(cdefs) and
+             (cx.rd.defs(a, chosen) <= cx.rd.defs(s, chosen) or cx.rd.defs(s, chosen) <= cx.rd.defs(a, chosen))
+             for s in stores):
+        out.ok(fn, a.ast, f'{groups}[{chosen}].append({icol}) pairs with {carr}[{icol}] = {chosen}')
+    else:
+        out.bad(fn, stores[0].ast, f'column joins group {chosen} but its colour is stored as '
+                f'`{astx.src(stores[0].ast.value)}`: later neighbour tests read a wrong colour', key='colour-index-existing')
+
+    # ---- index agreement, new group: appended exactly when chosen == len(groups) (still fresh)
+    n_ = news[0]
+    tests = [anc for anc in astx.ancestors(n_.ast) if isinstance(anc, ast.If) and astx.in_body(anc, outer, 'body')]
+    tests_i = [anc for anc in astx.ancestors(a.ast) if isinstance(anc, ast.If) and astx.in_body(anc, outer, 'body')]
+    if len(tests) != 1 or tests != tests_i:
+        out.unsure(fn, n_.ast, 'new-group / existing-group commit is not one if/else')
+    else:
+        t = tests[0]
+        tn = cx.node(t)
+        cmp_ = t.test
+        neg = False
+        while isinstance(cmp_, ast.UnaryOp) and isinstance(cmp_.op, ast.Not):
+            neg, cmp_ = not neg, cmp_.operand
+        okc = isinstance(cmp_, ast.Compare) and len(cmp_.ops) == 1 and isinstance(cmp_.ops[0], (ast.Eq, ast.NotEq, ast.GtE, ast.Lt))
+        if okc:
+            l, r = cmp_.left, cmp_.comparators[0]
+            if isinstance(r, ast.Name) and r.id == chosen:
+                l, r = r, l
+                okc = isinstance(cmp_.ops[0], (ast.Eq, ast.NotEq))
+            la = is_len(r, tn)
+            okc = okc and isinstance(l, ast.Name) and l.id == chosen and la is not None and (la is tn or len_fresh(la, tn))
+        if not okc:
+            out.unsure(fn, t, f'commit test is not `{chosen} == len({groups})`')
+        else:
+            is_new_when_true = isinstance(cmp_.ops[0], (ast.Eq, ast.GtE)) != neg
+            new_in_true = astx.in_body(n_.ast, t, 'body')
+            idx_in_true = astx.in_body(a.ast, t, 'body')
+            if new_in_true == idx_in_true:
+                out.unsure(fn, t, 'both commits in the same branch')
+            elif is_new_when_true == new_in_true:
+                out.ok(fn, t, f'a new group is opened exactly when {chosen} == len({groups}) (no colour was free), so the '
+                       f'stored colour is the index of the new group')
+            else:
+                out.bad(fn, t, f'a new group is opened when a free colour WAS found and {groups}[{chosen}] is indexed with '
+                        f'len({groups}) otherwise: the stored colour is not the index of the group', key='colour-index-new')
+
+    # ---- membership test guarding the selection
+    s_ = selects[0]
+    tests = [anc for anc in astx.ancestors(s_.ast) if isinstance(anc, ast.If) and astx.in_body(anc, inner, 'body')]
+    if len(tests) != 1:
+        out.unsure(fn, s_.ast, 'selection of a colour is not under exactly one test inside the search loop')
+        return True
+    tst = tests[0]
+    t = tst.test
+    neg = False
+    while isinstance(t, ast.UnaryOp) and isinstance(t.op, ast.Not):
+        neg, t = not neg, t.operand
+    if not (isinstance(t, ast.Compare) and len(t.ops) == 1 and isinstance(t.ops[0], (ast.In, ast.NotIn))):
+        out.unsure(fn, tst, 'free-colour test not recognised')
+        return True
+    free = isinstance(t.ops[0], ast.NotIn) != neg
+    tn = cx.node(tst)
+    if not (isinstance(t.left, ast.Name) and t.left.id == cvar):
+        out.bad(fn, tst, f'the tested colour `{astx.src(t.left)}` is not the candidate {cvar} that gets selected',
+                key='neighbour-test')
+        return True
+    if free != astx.in_body(s_.ast, tst, 'body'):
+        out.bad(fn, tst, 'a colour is selected when one of the neighbours already HAS it (test polarity inverted): '
+                'structurally dependent columns share a colour', key='neighbour-test')
+        return True
+    coll, cat = t.comparators[0], tn
+    if isinstance(coll, ast.Name):
+        v, d = cx.value(tn, coll.id)
+        if v is None:
+            out.unsure(fn, tst, f'definition of {coll.id} not unique')
+            return True
+        if d not in body:
+            out.bad(fn, d.ast, f"{coll.id} is computed outside the per-column loop: colours of the current column's "
+                    'neighbours are not what is tested', key='neighbour-test')
+            return True
+        coll, cat = v, d
+    if not (isinstance(coll, ast.Subscript) and isinstance(coll.value, ast.Name)):
+        out.unsure(fn, tst, 'neighbour colour collection not recognised')
+    elif coll.value.id != carr:
+        out.bad(fn, cat.ast, f'neighbour test reads `{coll.value.id}`, not the colours array {carr}', key='neighbour-test')
+    elif isinstance(coll.slice, ast.Name) and coll.slice.id == nbrs and cx.rd.defs(cat, nbrs) == {hdr}:
+        out.ok(fn, tst, f'{cvar} is selected only if not in {carr}[{nbrs}] of the current column')
+    elif isinstance(coll.slice, ast.Name):
+        out.bad(fn, cat.ast, f'neighbour colours are taken at `{coll.slice.id}` instead of the adjacency list {nbrs} of the '
+                'current column', key='neighbour-test')
+    else:
+        out.unsure(fn, cat.ast, 'neighbour index not recognised')
+    return True
+
+
 @rule('C03.one-colour', floor=5)
 def one_colour(repo, out):
     """Greedy colouring: per column exactly one colour store and one group append, with matching index,
@@ -432,7 +632,12 @@ def one_colour(repo, out):
     fn = repo.func(COL, '_get_full_disjoint_col_matrix_cols')
     cx = Ctx(fn)
     g = cx.g
-    outer, inner, icol, nbrs, groups, color, grp = _greedy_parts(cx)
+    try:
+        outer, inner, icol, nbrs, groups, color, grp = _greedy_parts(cx)
+    except AnalysisError:
+        if _one_colour_sentinel(fn, cx, out):
+            return
+        raise
     hdr = cx.node(outer)
     ihdr = cx.node(inner)
     body = set(g.body_nodes(outer))
@@ -702,6 +907,10 @@ def order_id(repo, out):
         return
     for r in ret:
         v = r.ast.value
+        if isinstance(v, ast.Name):
+            hv, hd = cx.value(r, v.id)
+            if hv is not None and hd not in body:
+                v, r = hv, hd       # sentinel hoisted into a local before the loop
         neg = isinstance(v, ast.UnaryOp) and isinstance(v.op, ast.USub) and isinstance(v.operand, ast.Name)
         if neg:
             sz, _ = cx.value(r, v.operand.id)
@@ -728,6 +937,11 @@ def order_id(repo, out):
     # number of iterations = number of columns that have entries, which are marked in the degree array beforehand
     it = loop.iter
     cnt = it.args[0] if isinstance(it, ast.Call) and astx.call_name(it) == 'range' and len(it.args) == 1 else None
+    count_at = hdr
+    if isinstance(cnt, ast.Name):
+        hv, hd = cx.value(hdr, cnt.id)
+        if hv is not None:
+            cnt, count_at = hv, hd      # loop bound hoisted into a local
     counts_deg = False
     if cnt is not None:
         if isinstance(cnt, ast.Call) and astx.call_name(cnt) in ('np.count_nonzero', 'numpy.count_nonzero') and \
@@ -749,7 +963,8 @@ def order_id(repo, out):
             and isinstance(n.ast.value, ast.Constant) and isinstance(n.ast.value.value, (int, float)) \
             and n.ast.value.value > 0
     marks = [n for n in g.where(is_mark) if n not in body]
-    if marks and g.dominated_by(hdr, marks, labels=cfgm.noexc) is None:
+    unmarked_later = [n for n in g.reach(g.normal_succ(count_at), labels=cfgm.noexc) if n in marks] if count_at is not hdr else []
+    if marks and g.dominated_by(count_at, marks, labels=cfgm.noexc) is None and not unmarked_later:
         out.ok(fn, marks[0].ast, f'columns with entries are marked in {deg} before they are counted')
     else:
         out.bad(fn, loop, f'the loop runs once per nonzero of {deg}, but {deg}[{mat}.indices] is not marked (> 0) on every '
@@ -1156,8 +1371,18 @@ def gather(repo, out):
             found += 1
             loop = astx.enclosing(st, (ast.For,))
             if ssame(t.slice, v.slice):
-                # the index must depend on the per-column loop variable
-                lv = astx.names(loop.target) if loop is not None else set()
+                # the index must depend on the per-column loop variable (directly or through temporaries
+                # assigned inside that loop)
+                lv = set(astx.names(loop.target)) if loop is not None else set()
+                grew = loop is not None
+                while grew:
+                    grew = False
+                    for s2 in astx.walk_stmts(loop.body):
+                        if isinstance(s2, ast.Assign) and lv & astx.names(s2.value):
+                            for t2 in astx.assigned_targets(s2):
+                                if isinstance(t2, ast.Name) and t2.id not in lv:
+                                    lv.add(t2.id)
+                                    grew = True
                 if lv & astx.names(t.slice):
                     out.ok(fn, st, f'scratch and result are both indexed by `{astx.src(t.slice)}` of the current column')
                 else:
@@ -1371,6 +1596,17 @@ def infer_roles(stmts, seed=None):
                     r = v if isinstance(v, str) else role(v)
                     if put(t.id, r):
                         changed = True
+            # comprehension variables take the role of what they range over
+            heads = [st] if not isinstance(st, (ast.For, ast.While, ast.If, ast.With, ast.Try)) else \
+                [getattr(st, 'iter', None) or getattr(st, 'test', None)]
+            for h in heads:
+                if h is None:
+                    continue
+                for n in astx.walk(h):
+                    if isinstance(n, (ast.ListComp, ast.SetComp, ast.GeneratorExp)):
+                        for gen in n.generators:
+                            if isinstance(gen.target, ast.Name) and put(gen.target.id, role(gen.iter)):
+                                changed = True
     return roles, role
 
 
@@ -2211,6 +2447,30 @@ def subtract(repo, out):
                 summed = (ge.elt, gen.target, gen.iter)
             elif inner_loop is not lp and inner_loop is not None:
                 summed = (val, inner_loop.target, inner_loop.iter)
+            elif isinstance(val, ast.Name):
+                # acc = 0 ; for k in subs: acc = acc + J[k]  (or acc += J[k]) ; J[pos] -= acc
+                acc = val.id
+                inits = [x for x in lp.body if isinstance(x, ast.Assign) and len(x.targets) == 1 and
+                         isinstance(x.targets[0], ast.Name) and x.targets[0].id == acc]
+                accl = [x for x in lp.body if isinstance(x, ast.For) and len(x.body) == 1 and not x.orelse]
+                if len(inits) == 1 and isinstance(inits[0].value, ast.Constant) and inits[0].value.value == 0 and \
+                        len(accl) == 1 and lp.body.index(inits[0]) < lp.body.index(accl[0]) < lp.body.index(st):
+                    a = accl[0].body[0]
+                    term = None
+                    if isinstance(a, ast.AugAssign) and isinstance(a.op, ast.Add) and \
+                            isinstance(a.target, ast.Name) and a.target.id == acc:
+                        term = a.value
+                    elif isinstance(a, ast.Assign) and len(a.targets) == 1 and isinstance(a.targets[0], ast.Name) and \
+                            a.targets[0].id == acc and isinstance(a.value, ast.BinOp) and isinstance(a.value.op, ast.Add):
+                        l, r = a.value.left, a.value.right
+                        if isinstance(l, ast.Name) and l.id == acc:
+                            term = r
+                        elif isinstance(r, ast.Name) and r.id == acc:
+                            term = l
+                    others = [x for x in lp.body if x not in (inits[0], accl[0], st)]
+                    if term is not None and not any(acc in {getattr(t2, 'id', None) for t2 in astx.assigned_targets(x)}
+                                                    for x in astx.walk_stmts(others)):
+                        summed = (term, accl[0].target, accl[0].iter)
             if not (isinstance(t.slice, ast.Name) and t.slice.id == pv):
                 out.bad(fn, st, f'the update writes `{astx.src(t)}`, not the position {pv} of the current subtraction',
                         key='subtract-apply')
@@ -2414,6 +2674,16 @@ def subtract(repo, out):
                    f'{od}-coloured ({gs}) entries')
         # subtrahends are restricted to the members of the colour being corrected
         memb = None
+        comp_memb = None
+        for lc in [n for n in walk_body(blk.body) if isinstance(n, ast.ListComp) and isinstance(n.elt, ast.Tuple)
+                   and len(n.generators) == 1]:
+            for t in lc.generators[0].ifs:
+                neg = False
+                while isinstance(t, ast.UnaryOp) and isinstance(t.op, ast.Not):
+                    neg, t = not neg, t.operand
+                if isinstance(t, ast.Compare) and len(t.ops) == 1 and isinstance(t.ops[0], (ast.In, ast.NotIn)) and \
+                        isinstance(t.left, ast.Name) and isinstance(t.comparators[0], ast.Name):
+                    comp_memb = (lc, t, isinstance(t.ops[0], ast.In) != neg)
         for c in [n for n in walk_body(blk.body) if isinstance(n, ast.Call) and astx.callee_attr(n) == 'append'
                   and n.args and isinstance(n.args[0], ast.Tuple)]:
             ifs = [a for a in astx.ancestors(c) if isinstance(a, ast.If) and astx.in_body(a, loops_[0], 'body')]
@@ -2422,17 +2692,23 @@ def subtract(repo, out):
                 if isinstance(t, ast.Compare) and len(t.ops) == 1 and isinstance(t.ops[0], (ast.In, ast.NotIn)) and \
                         isinstance(t.left, ast.Name) and isinstance(t.comparators[0], ast.Name):
                     memb = (c, a, t)
-        if memb is None:
+        if memb is None and comp_memb is None:
             out.unsure(rfn, blk, f'{d} block: test that a subtrahend lies in the colour group not recognised')
         else:
-            c, a, t = memb
+            if memb is not None:
+                c, a, t = memb
+                tup = c.args[0]
+                positive = isinstance(t.ops[0], ast.In) == astx.in_body(c, a, 'body')
+            else:
+                lc, t, positive = comp_memb
+                tup = lc.elt
+                a = astx.stmt_of(lc)
             setname = t.comparators[0].id
             defs = [s2 for s2 in astx.walk_stmts(blk.body) if isinstance(s2, ast.Assign) and
                     any(isinstance(x, ast.Name) and x.id == setname for x in s2.targets)]
             tok = slot_tokens([s2.value for s2 in defs])
             grp_ok = len(defs) == 1 and tok == {f'_{d}[0]'} and astx.mentions(defs[0].value, cvar)
-            positive = isinstance(t.ops[0], ast.In) == astx.in_body(c, a, 'body')
-            in_tuple = t.left.id in astx.names(c.args[0])
+            in_tuple = t.left.id in astx.names(tup)
             if not grp_ok:
                 if len(defs) == 1 and tok and tok != {f'_{d}[0]'}:
                     out.bad(rfn, defs[0], f'{d} block tests membership in {sorted(tok)} instead of the members of {d} colour '
@@ -2454,6 +2730,9 @@ def subtract(repo, out):
             if astx.callee_attr(c) in ('append', 'setdefault', 'add') and c.args and isinstance(c.args[0], ast.Tuple) \
                     and len(c.args[0].elts) == 2:
                 tuples.append(c.args[0])
+        for lc in [n for n in walk_body(blk.body) if isinstance(n, ast.ListComp) and isinstance(n.elt, ast.Tuple)
+                   and len(n.elt.elts) == 2]:
+            tuples.append(lc.elt)
         bad_t = None
         unk = None
         for tp in tuples:
@@ -2749,6 +3028,53 @@ def pairing(repo, out):
 _SUB_BLOCK = ("                if self.simul_coloring is not None and self.simul_coloring._subtractions:\n"
               "                    self.simul_coloring._apply_subtractions(self.J)\n")
 _RET = "        return self.J_final\n\n    def _compute_totals_approx"
+
+_GREEDY_OLD = ("    for icol, colnzrows in _order_by_ID(col_adj_matrix):\n"
+               "        neighbor_colors = colors[colnzrows]\n"
+               "        for color, grp in enumerate(color_groups):\n"
+               "            if color not in neighbor_colors:\n"
+               "                grp.append(icol)\n"
+               "                colors[icol] = color\n"
+               "                break\n"
+               "        else:\n"
+               "            colors[icol] = len(color_groups)\n"
+               "            color_groups.append([icol])\n")
+_GREEDY_NEW = ("    for icol, neighbors in _order_by_ID(col_adj_matrix):\n"
+               "        neighbor_colors = colors[neighbors]\n"
+               "        ncolors = len(color_groups)\n"
+               "        chosen = ncolors\n"
+               "        for color in range(ncolors):\n"
+               "            if color not in neighbor_colors:\n"
+               "                chosen = color\n"
+               "                break\n"
+               "\n"
+               "        if chosen == ncolors:\n"
+               "            color_groups.append([icol])\n"
+               "        else:\n"
+               "            color_groups[chosen].append(icol)\n"
+               "        colors[icol] = chosen\n")
+_TOSUB1_OLD = ("                        tosub = []\n"
+               "                        for subc in spcols[spvals < 0]:  # get nz vals for rev colors in this row\n"
+               "                            if subc in color_cols:  # make sure it's in the same color group\n"
+               "                                tosub.append((nzrow, subc))\n"
+               "                        if tosub:\n"
+               "                            subfromcol = subfrom[0]\n"
+               "                            subtractions.setdefault((nzrow, subfromcol), []).extend(tosub)\n")
+_TOSUB1_NEW = ("                        tosub = [(nzrow, subc) for subc in spcols[spvals < 0]\n"
+               "                                 if subc in color_cols]\n"
+               "                        if tosub:\n"
+               "                            subtractions.setdefault((nzrow, subfrom[0]), []).extend(tosub)\n")
+_TOSUB2_OLD = ("                        tosub = []\n"
+               "                        for subr in sprows[spvals > 0]:  # get nz vals for fwd colors in this column\n"
+               "                            if subr in color_rows:  # make sure it's in the same color group\n"
+               "                                tosub.append((subr, nzcol))\n"
+               "                        if tosub:\n"
+               "                            subfromrow = subfrom[0]\n"
+               "                            subtractions.setdefault((subfromrow, nzcol), []).extend(tosub)\n")
+_TOSUB2_NEW = ("                        tosub = [(subr, nzcol) for subr in sprows[spvals > 0]\n"
+               "                                 if subr in color_rows]\n"
+               "                        if tosub:\n"
+               "                            subtractions.setdefault((subfrom[0], nzcol), []).extend(tosub)\n")
 
 selftest(
     'C03',
@@ -3049,6 +3375,37 @@ selftest(
          "    col_groups = _get_full_disjoint_cols(J)\n    nzrows, nzcols = J.row, J.col\n"),
     Twin('sub-twin-renamed-loop-vars', COL, "        for pos, subs in self._subtractions:\n            tosub = sum(J[k] for k in subs)\n            J[pos] -= tosub\n",
          "        for where, ks in self._subtractions:\n            acc = sum(J[q] for q in ks)\n            J[where] -= acc\n"),
+    # ---- idiom classes accepted after the robustness round (each with breaking edits made on the refactored shape)
+    Twin('colour-twin-sentinel-search', COL, _GREEDY_OLD, _GREEDY_NEW),
+    Mutant('colour-sentinel-inverted-test', COL, _GREEDY_OLD, _GREEDY_NEW, 'C03.one-colour',
+           also=[(COL, "            if color not in neighbor_colors:\n                chosen = color", "            if color in neighbor_colors:\n                chosen = color")]),
+    Mutant('colour-sentinel-commit-swapped', COL, _GREEDY_OLD, _GREEDY_NEW, 'C03.one-colour',
+           also=[(COL, "        if chosen == ncolors:", "        if chosen != ncolors:")]),
+    Mutant('colour-sentinel-wrong-store', COL, _GREEDY_OLD, _GREEDY_NEW, 'C03.one-colour',
+           also=[(COL, "        colors[icol] = chosen\n", "        colors[icol] = ncolors\n")]),
+    Mutant('colour-sentinel-store-in-branch', COL, _GREEDY_OLD, _GREEDY_NEW, 'C03.one-colour',
+           also=[(COL, "            color_groups[chosen].append(icol)\n        colors[icol] = chosen\n",
+                  "            color_groups[chosen].append(icol)\n            colors[icol] = chosen\n")]),
+    Twin('id-twin-hoisted-locals', COL, "    for _ in range(np.nonzero(colored_degrees)[0].size):\n",
+         "    num_nonzero_cols = np.nonzero(colored_degrees)[0].size\n    never_max = -ncols\n\n    for _ in range(num_nonzero_cols):\n",
+         also=[(COL, "        colored_degrees[col] = -ncols  #", "        colored_degrees[col] = never_max  #")]),
+    Mutant('id-hoisted-count-before-mark', COL, "    colored_degrees[col_adj_matrix.indices] = 1  # make sure zero cols aren't considered\n\n    for _ in range(np.nonzero(colored_degrees)[0].size):\n",
+           "    num_nonzero_cols = np.nonzero(colored_degrees)[0].size\n    colored_degrees[col_adj_matrix.indices] = 1\n\n    for _ in range(num_nonzero_cols):\n",
+           'C03.order-id'),
+    Twin('sub-twin-accumulation-loop', COL, "            tosub = sum(J[k] for k in subs)\n",
+         "            tosub = 0\n            for k in subs:\n                tosub = tosub + J[k]\n"),
+    Mutant('sub-accumulation-loop-plus', COL, "            tosub = sum(J[k] for k in subs)\n            J[pos] -= tosub\n",
+           "            tosub = 0\n            for k in subs:\n                tosub = tosub + J[k]\n            J[pos] += tosub\n", 'C03.subtract'),
+    Twin('sub-twin-comprehension', COL, _TOSUB1_OLD, _TOSUB1_NEW, also=[(COL, _TOSUB2_OLD, _TOSUB2_NEW)]),
+    Mutant('sub-comprehension-member-negated', COL, _TOSUB1_OLD, _TOSUB1_NEW.replace('if subc in color_cols', 'if subc not in color_cols'),
+           'C03.subtract'),
+    Mutant('sub-comprehension-position-swapped', COL, _TOSUB2_OLD, _TOSUB2_NEW.replace('[(subr, nzcol) for', '[(nzcol, subr) for'),
+           'C03.subtract'),
+    Twin('gather-twin-temporaries', APPROX, "                for i, col in enumerate(jcols):\n                    scratch[:] = 0.0\n                    scratch[nzrows[i]] = res[nzrows[i]]\n",
+         "                for icol, col in enumerate(jcols):\n                    col_nzrows = nzrows[icol]\n                    scratch[:] = 0.0\n                    scratch[col_nzrows] = res[col_nzrows]\n"),
+    Mutant('gather-temporaries-wrong-rows', APPROX, "                for i, col in enumerate(jcols):\n                    scratch[:] = 0.0\n                    scratch[nzrows[i]] = res[nzrows[i]]\n",
+           "                for icol, col in enumerate(jcols):\n                    col_nzrows = nzrows[icol]\n                    first_nzrows = nzrows[0]\n                    scratch[:] = 0.0\n                    scratch[col_nzrows] = res[first_nzrows]\n",
+           'C03.gather'),
     Twin('coords-twin-renamed', COL, "    nzrows, nzcols = J.row, J.col\n    col_groups = _get_full_disjoint_cols(J)",
          "    nzrows, nzcols = J.row, J.col\n    col_groups = _get_full_disjoint_col_matrix_cols(_2col_adj_rows_cols(J))"),
 )
